@@ -159,6 +159,11 @@ def s1_asset_set(ctx, rule):
         n += 1
         while (call_is(full, 'TUPLE') or call_is(full, 'LIST')) and len(full[2]) == 1 and not full[3]:
             full = full[2][0]           # the sorted assets as a tuple (a hashable key, an immutable hand-out): the same sequence
+        # [k for k, _ in groupby(sorted(xs))]: the distinct elements of xs in ascending order, i.e. sorted(set(xs))
+        if full[0] == 'comp' and full[1] in ('list', 'gen') and len(full[3]) == 1 and not full[3][0][2] and len(full[3][0][0]) == 2 and full[2] == full[3][0][0][0]:
+            src_ = full[3][0][1]
+            if src_[0] == 'call' and src_[1] == ('ext', 'itertools.groupby') and len(src_[2]) == 1 and not src_[3] and call_is(src_[2][0], 'SORTED') and not src_[2][0][3]:
+                full = ('call', ('ext', 'SORTED'), (('call', ('ext', 'SET'), (src_[2][0][2][0],), ()),), ())
         srt = call_is(full, 'SORTED') and not full[3]
         ctx.require(srt, rule, 'the asset list is sorted (deterministic, ascending)', sz[0].site, fmt(full)[:120], key='%s|sorted' % rule)
         ops = union_operands(full[2][0] if srt else full)
@@ -343,6 +348,10 @@ def s4_order_diff(ctx):
         ctx.undecided('C09.S4', 'each element is an Order', fn.site(), fmt(elt)[:100])
         return
     f = dict(elt[2])
+    if not {'asset', 'quantity', 'created_dt'} <= set(f):
+        # the Order keeps its terms under other names (a record of terms behind properties): what each order is for is not read off its fields here
+        ctx.undecided('C09.S4', 'each order is for the loop asset, dated dt', fn.site(), 'an Order is built with the fields %s' % sorted(f)[:6])
+        return
     asset = f.get('asset')
     if asset is not None and asset not in tg and (any(s_ in tg for s_ in T.subterms(asset)) and (fmt(it).find('None') >= 0 or any(s_[0] in ('havoc', 'lc') for s_ in T.subterms(it)))):
         # the loop ranges over records (asset, quantity, ...) produced by something the engine did not read as a sequence: which assets those are is not decided here
@@ -465,7 +474,8 @@ def s5_sizers(ctx):
             p, lp = s['path'], s['loop']
             asset, w, wsrc = loop_asset_weight(lp)
             from .sizers import arrayish
-            if wsrc is None or fmt(wsrc) == 'None' or asset is None or arrayish(lp.iter):
+            zipped_ = any(s_[0] == 'call' and s_[1] == ('ext', 'ZIP') for s_ in T.subterms(lp.iter))       # parallel sequences walked in step: not traced back key by key
+            if wsrc is None or fmt(wsrc) == 'None' or asset is None or arrayish(lp.iter) or zipped_:
                 ctx.undecided('C09.S5', '%s assigns a target to every asset it iterates (no break/continue/filter)' % cname, lp.site, 'what the loop iterates was not traced back to the weights')
                 continue
             live_bodies = [b for b in s['bodies'] if b['path'].outcome != 'raise']
